@@ -55,6 +55,9 @@ func writeEvidence(p *PropDef, tier string, master uint64, agg *WorkerResult, ha
 		"workers":                workers,
 		"violation_details":      vio,
 	}
+	if raceEvidence != nil {
+		cov["race_supplement"] = raceEvidence
+	}
 	ev := map[string]interface{}{
 		"property_id": p.ID,
 		"tier":        tier,
